@@ -19,7 +19,7 @@ REAL_VS_STUB = {
 }
 RARE_PROBES = ["probes", "exception_path_exit", "exit_swallows", "enter_raises", "exit_raises"]
 LEGS = [
-    {"name": "probe312", "python": "3.12", "quick": 5000, "thorough": 120000, "quick_s": 50, "thorough_s": 420},
+    {"name": "probe312", "python": "3.12", "quick": 4000, "thorough": 120000, "quick_s": 50, "thorough_s": 420},
     {"name": "probe311", "python": "3.11", "quick": 2000, "thorough": 50000, "quick_s": 40, "thorough_s": 300},
     {"name": "probe310", "python": "3.10", "quick": 2000, "thorough": 50000, "quick_s": 40, "thorough_s": 300},
     {"name": "probe39", "python": "3.9", "quick": 2000, "thorough": 50000, "quick_s": 40, "thorough_s": 300},
